@@ -8,6 +8,8 @@
 (*                           of the current bytes (v) and, when the current bytes were written by *)
 (*                           the preceding Encode, against the operations given to it (rt): this  *)
 (*                           is the property, decode(encode(x)) = x up to integral reals          *)
+(*   DecodeVia{via, filters} decode of the current bytes through a Stream value / a document      *)
+(*                           under a filter chain: judged like Decode (filters are transparent)   *)
 (*   Reset                   a fresh thread                                                       *)
 (*   Disturb{t, kind, n}     ContentHist!Disturb: thread t decoded n damaged inputs of that kind;  *)
 (*                           changes nothing (history independence): later calls are judged as in *)
@@ -78,8 +80,12 @@ DoEncode ==
                /\ Out5(l, rec, j, Ok("ok-na"), Domain(ops))
     /\ l' = l + 1
 
+\* DecodeVia{via, filters, res, ops}: the same bytes decoded THROUGH a Stream value (Stream::decode_content, the page
+\* content of a document, the decode -> set content -> decode loop of an editor) whose stored content carries the named
+\* filter chain.  Filters are a property of the container, not of the content (7.4, 7.8.2): the judged function is decode
+\* of the plain bytes, so the event is judged exactly like Decode -- via and filters do not enter the judgement.
 DoDecode ==
-    /\ Recs[l].ev = "Decode"
+    /\ Recs[l].ev \in {"Decode", "DecodeVia"}
     /\ LET rec == Recs[l]
            ops == OpsOf(rec.ops)
            v  == IF ~cur.has THEN Ok("ok-skipped")
